@@ -222,7 +222,7 @@ class SQLExecutor(object):
                 # a transaction.
                 batches = list(batches)
 
-                for batch, use_transaction in batches:
+                for batch, use_transaction, new_transaction in batches:
                     if not use_transaction:
                         logging.error(
                             'Unable to execute the following SQL inside of a '
@@ -234,12 +234,19 @@ class SQLExecutor(object):
                             'transaction. See the logging for more '
                             'information.')
 
-            for i, (batch, use_transaction) in enumerate(batches):
+            for i, (batch, use_transaction,
+                    new_transaction) in enumerate(batches):
                 if execute:
-                    if use_transaction:
-                        self.new_transaction()
-                    else:
+                    if not use_transaction:
                         self.finish_transaction()
+                    elif i == 0 and not new_transaction:
+                        # Continue any transaction already opened by this
+                        # executor (from a prior call), so that everything
+                        # run within the executor succeeds or fails as a
+                        # whole.
+                        self.ensure_transaction()
+                    else:
+                        self.new_transaction()
 
                 if capture and i > 0:
                     if use_transaction:
@@ -363,20 +370,24 @@ class SQLExecutor(object):
 
             1. The list of SQL statements.
             2. Whether to execute these statements in a transaction.
+            3. Whether the statements explicitly require a brand new
+               transaction.
         """
         batch = None
         last_use_transaction = None
+        batch_new_transaction = False
 
         for (statement, params, use_transaction,
              new_transaction) in prepared_sql:
             if new_transaction or use_transaction is not last_use_transaction:
                 if batch:
-                    yield batch, last_use_transaction
+                    yield batch, last_use_transaction, batch_new_transaction
 
                 batch = []
                 last_use_transaction = use_transaction
+                batch_new_transaction = new_transaction
 
             batch.append((statement, params))
 
         if batch:
-            yield batch, last_use_transaction
+            yield batch, last_use_transaction, batch_new_transaction
